@@ -491,7 +491,10 @@ def r_push_pop(ctx):
                                                 if C.call_name(cc).endswith("_solver.pop") for a in cc.args)]
             # the only test allowed to skip the pop is `counter > 0`
             def skip_ok(n):
-                return n.kind == "test" and ast.unparse(n.ast.test).replace(" ", "") in (f"{counter}>0", f"{counter}>=1", f"{counter}!=0", counter)
+                if n.kind != "test":
+                    return False
+                t = ast.unparse(n.ast.test).replace(" ", "")
+                return t in (f"{counter}>0", f"{counter}>=1", f"{counter}!=0", counter, f"0<{counter}", f"1<={counter}", f"0!={counter}")
             path = g.path_avoiding(p, g.exit, lambda n: n in good_pops,
                                    edge_ok=lambda a, b, lab: not (skip_ok(a) and lab == "F"))
             # other writers of the counter
@@ -522,7 +525,8 @@ def r_init_once(ctx):
             n += 1
             # dominated by the T edge of `not self._initialized`
             def guard(nd):
-                return nd.kind == "test" and ast.unparse(nd.ast.test).replace(" ", "") == "notself._initialized"
+                return nd.kind == "test" and ast.unparse(nd.ast.test).replace(" ", "") in ("notself._initialized", "self._initializedisFalse",
+                                                                                         "self._initialized==False")
             tests = g.find(guard)
             ok = False
             for t in tests:
@@ -751,7 +755,8 @@ def r_option_table(ctx):
     ctx.floor("R-OPTION-RESET", "constructor configurations", len(keysets), 8)
 
 
-C15_RULES = [r_option_noninterference, r_option_table, r_opt_wiring]
+# the two optimisers can only agree on the optimum if the incremental loop's direction table and typestate hold
+C15_RULES = [r_option_noninterference, r_option_table, r_opt_wiring, r_direction, r_improve_loop, r_weighted]
 
 
 def r_core_map(ctx):
